@@ -56,8 +56,7 @@ func (c *Client) ReadCoils(id byte, coil, count uint16) ([]bool, error) {
 		return ret, err
 	}
 
-	// FIXME, what is max modbus packet size?
-	buf := make([]byte, 200)
+	buf := make([]byte, maxADUSize)
 	cnt, err := c.transport.Read(buf)
 	if err != nil {
 		return ret, err
@@ -101,8 +100,7 @@ func (c *Client) WriteSingleCoil(id byte, coil uint16, v bool) error {
 		return err
 	}
 
-	// FIXME, what is max modbus packet size?
-	buf := make([]byte, 200)
+	buf := make([]byte, maxADUSize)
 	cnt, err := c.transport.Read(buf)
 	if err != nil {
 		return err
@@ -155,8 +153,7 @@ func (c *Client) ReadDiscreteInputs(id byte, input, count uint16) ([]bool, error
 		return ret, err
 	}
 
-	// FIXME, what is max modbus packet size?
-	buf := make([]byte, 200)
+	buf := make([]byte, maxADUSize)
 	cnt, err := c.transport.Read(buf)
 	if err != nil {
 		return ret, err
@@ -205,8 +202,7 @@ func (c *Client) ReadHoldingRegs(id byte, reg, count uint16) ([]uint16, error) {
 		return ret, err
 	}
 
-	// FIXME, what is max modbus packet size?
-	buf := make([]byte, 200)
+	buf := make([]byte, maxADUSize)
 	cnt, err := c.transport.Read(buf)
 	if err != nil {
 		return ret, err
@@ -255,8 +251,7 @@ func (c *Client) ReadInputRegs(id byte, reg, count uint16) ([]uint16, error) {
 		return ret, err
 	}
 
-	// FIXME, what is max modbus packet size?
-	buf := make([]byte, 200)
+	buf := make([]byte, maxADUSize)
 	cnt, err := c.transport.Read(buf)
 	if err != nil {
 		return ret, err
@@ -304,8 +299,7 @@ func (c *Client) WriteSingleReg(id byte, reg, value uint16) error {
 		return err
 	}
 
-	// FIXME, what is max modbus packet size?
-	buf := make([]byte, 200)
+	buf := make([]byte, maxADUSize)
 	cnt, err := c.transport.Read(buf)
 	if err != nil {
 		return err
